@@ -573,12 +573,29 @@ func (w *winWorld) receiverStep(s Step) {
 			// the 16-bit field shows the edge rounded down by up to 2^scale-1: those bytes may be
 			// inside the real window and carry true content; everything behind them is beyond it
 			in := int(room) + 1<<uint(w.sws)
-			seg := mk(w.sent, in+over, false)
-			p.Send(codec.FlagACK|codec.FlagPSH, p.ISS+1+uint32(w.sent), p.RcvNxt, 65535, nil, seg)
+			// ... and it may begin a little before what the stack has already got (a re-segmented retransmission)
+			back := int64(s.C/1500) % 60
+			if back > w.sent {
+				back = w.sent
+			}
+			start := w.sent - back
+			seg := mk(start, int(back)+in+over, false)
+			edge0 := w.lastEdge
+			p.Send(codec.FlagACK|codec.FlagPSH, p.ISS+1+uint32(start), p.RcvNxt, 65535, nil, seg)
 			if e := w.sent + int64(in+over); e > w.maxSent {
 				w.maxSent = e
 			}
+			// the part of it inside the advertised window is in-order data inside the window: accepted
+			w.observeReceiver()
+			if w.Viol == nil && w.lastAck < edge0 {
+				w.Advance(500 * time.Millisecond)
+				w.observeReceiver()
+				if w.lastAck < edge0 {
+					w.Fail("in-window-data-not-accepted", "", "a segment [%d,%d) that begins at or before the next expected byte and reaches beyond the advertised right edge %d was not acknowledged up to that edge (ack stays at %d): the part inside the window is in-order data", start, start+int64(len(seg)), edge0, w.lastAck)
+				}
+			}
 			w.Probes["segments_straddling_the_right_edge"]++
+			return
 		case 3: // out of order but inside the window (true content); the gap is filled by later in-order data
 			if room <= int64(n)+10 {
 				return
